@@ -145,7 +145,11 @@ where
                     if i >= n {
                         break;
                     }
+                    let t0 = std::time::Instant::now();
                     let r = f(i);
+                    if std::env::var("VERIF_DEBUG").is_ok() {
+                        eprintln!("sim {} took {:.2}s evals={}", i, t0.elapsed().as_secs_f64(), r.evaluations);
+                    }
                     results.lock().unwrap()[i as usize] = Some(r);
                 })
                 .expect("spawn worker");
@@ -496,4 +500,15 @@ pub fn conclude_replay(prop: &str, vs: &[Violation], want_class: Option<&str>) -
 
 pub fn hash_str(s: &str) -> u64 {
     crate::rng::fnv1a(crate::rng::FNV_INIT, s.as_bytes())
+}
+
+pub fn read_replay(path: &Path) -> Value {
+    let text = std::fs::read_to_string(path).unwrap_or_else(|e| {
+        eprintln!("harness error: cannot read {}: {}", path.display(), e);
+        std::process::exit(2)
+    });
+    serde_json::from_str(&text).unwrap_or_else(|e| {
+        eprintln!("harness error: {} does not parse: {}", path.display(), e);
+        std::process::exit(2)
+    })
 }
